@@ -8,7 +8,7 @@ OUT="$DIR/RESULTS.txt"; : > "$OUT.tmp"
 if [ -n "$(git -C "$REPO" status --porcelain --untracked-files=no)" ]; then echo "$REPO is not clean"; exit 2; fi
 for d in "$DIR"/$PAT.diff; do
   n=$(basename "$d" .diff)
-  git -C "$REPO" apply "$d" 2>/dev/null || git -C "$REPO" apply --3way "$d" >/dev/null 2>&1 || { echo "$n APPLY-FAILED" | tee -a "$OUT.tmp"; continue; }
+  git -C "$REPO" apply "$d" 2>/dev/null || git -C "$REPO" apply --3way "$d" >/dev/null 2>&1 || { git -C "$REPO" reset -q --hard HEAD; echo "$n APPLY-FAILED" | tee -a "$OUT.tmp"; continue; }
   line="$n"
   for prop in C06 C07 C08 C17; do
     out=$(cd "$VDIR" && VERIF_REPLAY_DIR=/dev/shm/benign_replays VERIF_EVIDENCE_DIR=/dev/shm/benign_evidence ./check "$prop" "$@" 2>&1); code=$?
@@ -16,7 +16,7 @@ for d in "$DIR"/$PAT.diff; do
     line="$line $prop:exit=$code,violations=$v"
     [ $code -ne 0 ] && echo "$out" | grep '^VIOLATION\|^HARNESS' | head -3 | cut -c1-300
   done
-  git -C "$REPO" checkout -- . && git -C "$REPO" clean -fdq -- cli core
+  git -C "$REPO" reset -q --hard HEAD && git -C "$REPO" clean -fdq -- cli core
   echo "$line" | tee -a "$OUT.tmp"
 done
 mv "$OUT.tmp" "$OUT"
